@@ -571,6 +571,24 @@ func (c *FCtx) execRange(st *State, x *ast.RangeStmt, label string) []Flow {
 			}
 			return v
 		}
+	case *types.Pointer:
+		// range over a pointer to an array: no copy, the elements are read through the pointer at every iteration
+		arr, isArr := u.Elem().Underlying().(*types.Array)
+		pv, isPV := coll.(PV)
+		if !isArr || !isPV {
+			fail("range over %s", xt)
+		}
+		c.oblige(st, "safety", "nil-deref range "+c.exprStr(x.X), Not(pv.IsNil), c.eng.pos(x))
+		st.assume(Not(pv.IsNil))
+		n = Num(arr.Len())
+		elemT = arr.Elem()
+		elemAt = func(st *State, i *Term) Val {
+			av, ok := c.readPlace(st, Place{Cell: pv.Cell, Path: pv.Path, Typ: arr}).(AV)
+			if !ok {
+				fail("range over %s: pointer target is not an array value", xt)
+			}
+			return c.termToVal(Select(av.T, i), arr.Elem())
+		}
 	default:
 		fail("range over %s", xt)
 	}
